@@ -262,6 +262,10 @@ let () =
   (try
      while true do
        let line = input_line stdin in
+       if String.length line > 5 && String.sub line 0 5 = "#reg " then begin
+         (* "#reg g1|g2 <scalar hex>": make the oracle's decode table know this point *)
+         ignore (ask ("enc " ^ String.sub line 5 (String.length line - 5)))
+       end else
        if String.length line > 0 && line.[0] <> '#' then begin
          let ws = List.filter (fun s -> s <> "") (String.split_on_char ' ' line) in
          match ws with
